@@ -227,3 +227,8 @@ func Rank(vals []string) map[string]uint64 {
 	}
 	return m
 }
+
+// SilenceLogs turns off ipfs go-log output (the code under test logs a lot).
+func SilenceLogs() {
+	os.Setenv("GOLOG_LOG_LEVEL", "fatal")
+}
